@@ -844,7 +844,8 @@ def _oracle_pose_misc(ctx, n, fails):
 # The model treats a Pose as an immutable VALUE (rotation matrix + translation).  The Python object has state; the
 # history checks validate that after any sequence of method calls, property reads, copy.copy and scale() the object
 # still behaves exactly like a freshly constructed Pose with the same matrix_vec, and that every law still holds.
-_HIST_OPS = ('rt', 'irt', 'rtp', 'irtp', 'scale', 'copy', 'read', 'switch')
+_HIST_OPS = ('rt', 'irt', 'rtp', 'irtp', 'scale', 'copy', 'read', 'switch', 'compose', 'compose', 'compose')
+_ID_CTORS = ('Pose()', 'from_rot_vec_zeros', 'identity_matrix', 'from_rot_vec_default', 'from_quat_identity')
 
 
 def _gen_history(ctx, n_ops):
@@ -853,7 +854,12 @@ def _gen_history(ctx, n_ops):
     ops = []
     for _ in range(n_ops):
         o = ctx.rng.choice(_HIST_OPS)
-        if o in ('rt', 'irt'):
+        if o == 'compose':
+            # a.rotate_translate_pose(b) / a.inv_rotate_translate_pose(b) on LIVE objects (indices modulo the number
+            # of live objects; 1.. are exact-identity poses), the product becomes a live object and is scaled in place
+            ops.append([o, ctx.rng.choice(('rtp', 'rtp', 'irtp')), ctx.rng.randrange(8), ctx.rng.randrange(8),
+                        ctx.rng.choice((0.5, 2.0, ctx.rng.uniform(0.2, 4.0)))])
+        elif o in ('rt', 'irt'):
             ops.append([o, _tvec(ctx, 5.0), ctx.rng.choice(_MUTS)])
         elif o in ('rtp', 'irtp'):
             ops.append([o, _tvec(ctx, 2.0), _tvec(ctx), ctx.rng.choice(_MUTS)])
@@ -864,7 +870,8 @@ def _gen_history(ctx, n_ops):
                         ctx.rng.choice(_MUTS)])
         else:
             ops.append([o, ctx.rng.randrange(4)])
-    return {'fn': 'pose_history', 'r': list(r), 't': _tvec(ctx), 'ops': ops, 'probe': _tvec(ctx, 5.0),
+    ids = [ctx.rng.choice(_ID_CTORS) for _ in range(ctx.rng.randrange(1, 3))]
+    return {'fn': 'pose_history', 'r': list(r), 't': _tvec(ctx), 'ids': ids, 'ops': ops, 'probe': _tvec(ctx, 5.0),
             'q': [_tvec(ctx, 2.0), _tvec(ctx)]}
 
 
@@ -917,12 +924,57 @@ def _run_history(case):
                         tag + ': inverse must undo forward for the object in its current state')
         return None
 
+    # exact-identity poses built in every way the library offers (operands of `compose` operations)
+    for kind in case.get('ids', []):
+        I = {'Pose()': lambda: Pose(), 'from_rot_vec_zeros': lambda: Pose.from_rot_vec(np.zeros(3), np.zeros(3)),
+             'identity_matrix': lambda: Pose(np.identity(3), np.zeros(3)), 'from_rot_vec_default': lambda: Pose.from_rot_vec(),
+             'from_quat_identity': lambda: Pose.from_quat(np.array((0.0, 0.0, 0.0, 1.0)))}[kind]()
+        objs.append([I, np.identity(3), np.zeros(3)])
     f = laws(-1)
     if f:
         return f
     for step, op in enumerate(case['ops']):
         P, R, t = objs[cur]
         o = op[0]
+        if o == 'compose':
+            ea, eb = objs[op[2] % len(objs)], objs[op[3] % len(objs)]
+            A, B = ea[0], eb[0]
+            res = (A.rotate_translate_pose if op[1] == 'rtp' else A.inv_rotate_translate_pose)(B)
+            if op[1] == 'rtp':
+                Rw, tw = ea[1] @ eb[1], ea[1] @ eb[2] + ea[2]
+            else:
+                Rw, tw = ea[1].T @ eb[1], ea[1].T @ (eb[2] - ea[2])
+            sc = 1.0 + float(np.max(np.abs(tw)))
+            if not (close(res.rot_matrix, Rw, 1.0) and close(res.translation, tw, sc)):
+                return ('pose_history_differs_from_fresh', [Rw.tolist(), tw.tolist()],
+                        [res.rot_matrix.tolist(), res.translation.tolist()],
+                        'op %d: %s of live objects %d, %d has the wrong value' % (step, op[1], op[2] % len(objs), op[3] % len(objs)))
+            # freshness: a NEW object that shares no array with any live object (C15_compose_fresh)
+            alias = None
+            for k2, e in enumerate(objs):
+                if res is e[0] or np.shares_memory(res.rot_matrix, e[0].rot_matrix) or \
+                        np.shares_memory(res.translation, e[0].translation):
+                    alias = k2
+                    break
+            if alias is None:
+                ent = [res, res.rot_matrix.copy(), res.translation.copy()]
+                res.scale(op[4])                     # what LighthouseSystemScaler does with poses it is given
+                ent[2] = ent[2] * op[4]
+                if len(objs) < 8:
+                    objs.append(ent)                 # the scaled product is an operand of later operations
+            else:
+                res.scale(op[4])                     # scaling the "product" now scales live object `alias` as well
+                f = laws(step)
+                what = 'op %d: %s of live objects %d, %d returned %s live object %d instead of a new Pose' % (
+                    step, op[1], op[2] % len(objs), op[3] % len(objs),
+                    'the SAME object as' if res is objs[alias][0] else 'arrays shared with', alias)
+                if f:
+                    return (f[0], f[1], f[2], what + '; after the in-place scale(%r) of the product: %s' % (op[4], f[3]))
+                return ('pose_product_aliases_operand', 'a new Pose sharing no array with its operands', 'live object %d' % alias, what)
+            f = laws(step)
+            if f:
+                return f
+            continue
         # results COMPUTED by the library may be modified in place by the client afterwards (op[-1]); the arguments
         # handed in are modified after the call as well.  rot_matrix / translation / matrix_vec hand out the stored
         # arrays in the unchanged code (observation recorded in design.d/C15.md), so those are read but not modified.
@@ -944,7 +996,7 @@ def _run_history(case):
             P.scale(op[1])
             objs[cur][2] = t * op[1]
         elif o == 'copy':
-            if len(objs) < 4:
+            if len(objs) < 6:
                 objs.append([copy.copy(P), R.copy(), objs[cur][2].copy()])
                 cur = len(objs) - 1
         elif o == 'read':
